@@ -31,6 +31,8 @@ SOURCES = {
     "try-type-checking": "import os\n" + BODY + "\ntry:\n    from typing import TYPE_CHECKING\nexcept ImportError:\n    TYPE_CHECKING = False\n",
     "same-name-alias": "from shapes16 import Circle as Circle\n" + BODY + "\nKEEP = Circle\n",
     "local-import-of-stub-name": BODY + "\n\ndef lazy():\n    from shapes16 import Circle  # needed at run time\n    return Circle()\n\n\nLAZY = lazy()\n",
+    "future-import-mentioned-in-docstring": '"""Notes: a later version might add `from __future__ import annotations` here."""\nimport os\n' + BODY,
+    "future-import-mentioned-in-comment": "# TODO: from __future__ import annotations\nimport os\n" + BODY,
     "self-reference": "from typing import Optional\n\n\nclass Node:\n    def link(self, other):\n        return other\n" + BODY,
 }
 STUBS = {
